@@ -388,6 +388,10 @@ def gen_case(rng, shape):
     if rng.random() < 0.3:
         kw["comment"] = "c16 case"
     if rng.random() < 0.3:
+        kw["id"] = rng.choice(["42", "mol-7f3a", 12345])  # optional bookkeeping fields are non-geometric fields like any other
+    if rng.random() < 0.2:
+        kw["identifiers"] = {"molecular_formula": "X", "smiles": "C"}
+    if rng.random() < 0.3:
         kw["extras"] = {"tag": rng.randint(0, 9), "nested": {"k": [1, 2.5]}}
     if rng.random() < 0.3:
         kw["atom_labels"] = [rng.choice(["", "a", "b2", "x_1"]) for _ in range(n)]
